@@ -688,6 +688,11 @@ pool_case(P.QueryByCommittee, "sample_proba-unseeded",
           {"sample_predictions_method_name": "sample_proba",
            "sample_predictions_dict": _SP_UNSEEDED},
           models=M(ensemble=pwc))
+# a committee of kernel classifiers with their own generators (members break prediction ties randomly; seed R7C06)
+_pwc_list = lambda: [pwc(random_state=k, metric_dict={"gamma": g}) for k, g in ((1, 0.5), (2, 1.0), (3, 2.0), (4, 4.0))]  # noqa: E731
+for _m in ("vote_entropy", "variation_ratios"):
+    pool_case(P.QueryByCommittee, f"pwc-committee-{_m}", {"method": _m},
+              models=M(ensemble=_pwc_list), lazy_none=_QBC_LAZY)
 pool_case(P.QueryByCommittee, "reg-list", models=M(ensemble=_reg_list),
           data=pool_reg_data, lazy_none=_QBC_LAZY)
 pool_case(P.QueryByCommittee, "reg-bagging", models=M(ensemble=sk_bagging_reg),
